@@ -440,6 +440,39 @@ class Machine:
             raise Violation("state-differs", f"propagator re-bound to another orbit returns a state {d:.3g} m away from that orbit's own propagation")
         return ["rebind_other"]
 
+    def op_kick(self, op):
+        """Derived states are values too: (A) a state returned by propagate() is changed in place (a manual
+        delta-v) and propagated further; (B) derived quantities of an orbit are read (`.infos`), the orbit
+        is changed in place, then propagated.  Both must equal the propagation of a freshly built orbit
+        holding the same numbers."""
+        from beyond.orbits import Orbit
+
+        if self.kind not in ("kepler", "j2"):
+            return ["skip"]
+        t1, t2 = op["t_us"], op["t2_us"]
+        dv = np.array(op["dv"], float)
+        if op["variant"] == "A":
+            sv = self.obj.propagate(mkdate(t1))
+        else:
+            sv = self.obj.copy()
+            t1 = 0
+            _ = sv.infos.n, sv.infos.period  # derived quantities read before the change
+        sv.form = "cartesian"
+        sv.base[3:] += dv
+        coords = np.array(sv.base, float)
+        if not hasattr(sv, "propagate"):
+            return ["skip"]
+        got = cart(sv.propagate(mkdate(t2)))
+        fresh = Orbit(coords, mkdate(t1), "cartesian", "EME2000", type(self.obj.propagator)())
+        ref = cart(fresh.propagate(mkdate(t2)))
+        if not np.array_equal(got, ref):
+            d = float(np.linalg.norm(got[:3] - ref[:3]))
+            if d > 1e-6:
+                raise Violation("derived-state-stale", f"a state {'returned by propagate()' if op['variant'] == 'A' else 'whose .infos had been read'} "
+                                                       f"then changed in place by dv={dv.tolist()} propagates {d:.3g} m away from a freshly built "
+                                                       f"orbit holding the same numbers")
+        return ["kick:" + op["variant"]]
+
     def op_partial(self, op):
         start, stop, step = self._range(op)
         kw = self.iter_kwargs(op, start, stop, step)
@@ -490,11 +523,14 @@ class Machine:
 @st.composite
 def op_strategy(draw, kind, h_us, span_us):
     name = draw(st.sampled_from(["propagate", "iter_range", "iter_range", "iter_range", "iter_dates", "iter_daterange",
-                                 "ephem", "iter_listeners", "rebind", "rebind_other", "partial", "iter_own"]))
+                                 "ephem", "iter_listeners", "rebind", "rebind_other", "partial", "iter_own", "kick"]))
 
     def t():
         return draw(go.uniform_int(-span_us, span_us)) if kind != "ephem" else draw(go.uniform_int(0, span_us))
 
+    if name == "kick":
+        return dict(op=name, t_us=t(), t2_us=t(), variant=draw(st.sampled_from(["A", "B"])),
+                    dv=[round(draw(go.uniform(-50, 50)), 3) for _ in range(3)])
     if name in ("propagate", "rebind", "rebind_other"):
         return dict(op=name, t_us=t(), as_td=draw(st.booleans()))
     if name == "iter_dates":
@@ -585,7 +621,7 @@ def check(case):
     m = Machine(case)
     tags = m.run()
     kinds = {t for t in tags if t in ("propagate", "iter_range", "iter_dates", "iter_daterange", "ephem", "iter_listeners", "iter_own",
-                                       "rebind", "rebind_other", "partial_consume")}
+                                       "rebind", "rebind_other", "partial_consume", "kick:A", "kick:B")}
     # an op that failed as a listed known finding and after which the history went on also counts:
     # what follows it runs on objects that have been through a failing call
     special = {"backward", "step-not-dividing", "shorter-than-interp-order", "stop-off-grid", "known-finding-op"} & set(tags)
